@@ -3,7 +3,13 @@
 Spec:
   {"driver": "tick"|"run",
    "waves": [[ [node, prio], ... ], ...]}     wave k is fired from outside before tick k (run: wave 0 only, before run())
-  node = {"id": n, "handlers": [{"prio": p, "stop": bool, "kids": [[node, prio], ...]}, ...]}
+  node = {"id": n, "handlers": [{"prio": p, "stop": bool, "flush": bool, "raise": bool, "kids": [[node, prio], ...]}, ...]}
+A handler fires its kids, then (flush) calls self.flush() recursively, then (stop) calls event.stop(), then (raise) raises.
+
+Oracle (c) is an online reference queue machine replayed over the harness' own action log (FIRE / event start): whenever an
+event starts while the model's current pass is empty a new pass is taken (the queue sorted by (priority, fire sequence));
+every started event must be the head of the current pass. That is exact for plain programs and for recursive flush()
+(which continues the running pass, or starts the next one if the pass is exhausted).
 """
 from hypothesis import strategies as st
 
@@ -18,6 +24,10 @@ MAX_H = 3
 
 
 class node(Event):
+    pass
+
+
+class Boom(Exception):
     pass
 
 
@@ -38,18 +48,19 @@ def _renumber(waves):
 
 
 def _node_strategy(max_depth):
-    leaf_h = st.fixed_dictionaries({
-        'prio': st.sampled_from(H_PRIOS), 'stop': st.sampled_from([False] * 5 + [True]),
-        'kids': st.just([])})
-
-    def extend(children):
-        hs = st.fixed_dictionaries({
+    def hdict(kids):
+        return st.fixed_dictionaries({
             'prio': st.sampled_from(H_PRIOS),
             'stop': st.sampled_from([False] * 5 + [True]),
-            'kids': st.lists(st.tuples(children, st.sampled_from(EV_PRIOS)).map(list), max_size=3)})
+            'flush': st.sampled_from([False] * 9 + [True]),
+            'raise': st.sampled_from([False] * 9 + [True]),
+            'kids': kids})
+
+    def extend(children):
+        hs = hdict(st.lists(st.tuples(children, st.sampled_from(EV_PRIOS)).map(list), max_size=3))
         return st.fixed_dictionaries({'id': st.just(0), 'handlers': st.lists(hs, min_size=1, max_size=MAX_H)})
 
-    leaf = st.fixed_dictionaries({'id': st.just(0), 'handlers': st.lists(leaf_h, min_size=1, max_size=MAX_H)})
+    leaf = st.fixed_dictionaries({'id': st.just(0), 'handlers': st.lists(hdict(st.just([])), min_size=1, max_size=MAX_H)})
     s = leaf
     for _ in range(max_depth):
         s = st.one_of(leaf, extend(s))
@@ -59,18 +70,22 @@ def _node_strategy(max_depth):
 class C02(Prop):
     id = 'C02'
     rule = ('programs of nested prioritised fires (hypothesis-generated trees of events; 1-3 handlers per event with '
-            'priorities from {0,1,-1,2.5,-3} and optional stop(); children fired with priorities from '
-            '{0,1,-1,3.5,-2.5,5,0.5}; extra waves fired between ticks) executed under tick() and under real run(); '
-            'non-trivial = >=2 passes, >=2 distinct event priorities inside one pass, and a child fired with a lower '
-            'priority value than an event already queued; distinct = distinct spec hash')
+            'priorities from {0,1,-1,2.5,-3}, optional stop(), optional recursive flush(), optional raise after stop; children '
+            'fired with priorities from {0,1,-1,3.5,-2.5,5,0.5}; extra waves fired between ticks) executed under tick() and '
+            'under real run(); non-trivial = >=2 passes, >=2 distinct event priorities inside one pass, and a child fired with '
+            'a lower priority value than an event still waiting in the running pass; distinct = distinct spec hash')
     assumptions = ('order among handlers of equal priority is unspecified and not asserted',
-                   'whether an equal-priority handler runs after stop() is not asserted')
-    budget = {'quick': (700, 4), 'thorough': (12000, 16)}
+                   'whether an equal-priority handler runs after stop() is not asserted',
+                   'handlers run nested only inside an explicit recursive flush(); fire() itself must never run a handler')
+    budget = {'quick': (350, 4), 'thorough': (6000, 16)}
 
     shrink_lists = {'waves': 1, 'handlers': 1, 'kids': 0}
 
     def setup(self):
         driver.quiet_process()
+
+    def normalize(self, spec):
+        return dict(spec, waves=_renumber(spec['waves']))
 
     def strategy(self, tier):
         depth = 3 if tier == 'quick' else 5
@@ -84,13 +99,13 @@ class C02(Prop):
 
     # ------------------------------------------------------------------ real execution
     def _run_real(self, spec):
-        log = []      # (event id, handler index)
-        depth = [0]
-        reent = []
-        fired_inside = []  # fire() returned before any handler of the fired event ran?
+        log = []      # ('fire', parent|None, kid id, prio) | ('h', eid, hi) | ('hend', eid, hi) | ('fb', eid, hi) | ('fe', eid, hi)
 
         class App(BaseComponent):
-            pass
+            @H('exception', channel='*')
+            def _x(self, etype, evalue, tb, handler=None, fevent=None):
+                if not isinstance(evalue, Boom):
+                    log.append(('stray', repr(evalue)))
 
         app = App()
 
@@ -100,18 +115,22 @@ class C02(Prop):
                 if hi >= len(n['handlers']) or n['handlers'][hi]['prio'] != hp:
                     return
                 h = n['handlers'][hi]
-                depth[0] += 1
-                if depth[0] > 1:
-                    reent.append(n['id'])
-                log.append((n['id'], hi))
-                for kid, kp in h['kids']:
-                    before = len(log)
-                    self.fire(node(kid), priority=kp)
-                    if len(log) != before:
-                        fired_inside.append(kid['id'])
-                if h['stop']:
-                    event.stop()
-                depth[0] -= 1
+                log.append(('h', n['id'], hi))
+                try:
+                    for kid, kp in h['kids']:
+                        log.append(('fire', n['id'], kid['id'], kp))
+                        self.fire(node(kid), priority=kp)
+                        log.append(('fired', n['id'], kid['id']))
+                    if h.get('flush'):
+                        log.append(('fb', n['id'], hi))
+                        self.flush()
+                        log.append(('fe', n['id'], hi))
+                    if h['stop']:
+                        event.stop()
+                    if h.get('raise'):
+                        raise Boom((n['id'], hi))
+                finally:
+                    log.append(('hend', n['id'], hi))
             f.__name__ = 'f_%d_%s' % (hi, str(hp).replace('.', '_').replace('-', 'm'))
             return f
 
@@ -121,32 +140,38 @@ class C02(Prop):
 
         waves = spec['waves']
         exhausted = False
+        escaped = None
         with driver.captured_stderr() as err:
-            if spec['driver'] == 'tick':
-                t = 0
-                while True:
-                    if t < len(waves):
-                        for n, p in waves[t]:
-                            app.fire(node(n), priority=p)
-                    elif driver.quiescent(app):
-                        break
-                    app.tick()
-                    t += 1
-                    if t > 200:
-                        exhausted = True
-                        break
-            else:
-                for n, p in waves[0]:
-                    app.fire(node(n), priority=p)
-                idle = driver.run_to_quiescence(app, max_iter=200)
-                exhausted = idle.exhausted or idle.blocked > 0
-        return log, reent, fired_inside, len(app._queue), exhausted, err.getvalue()
+            try:
+                if spec['driver'] == 'tick':
+                    t = 0
+                    while True:
+                        if t < len(waves):
+                            for n, p in waves[t]:
+                                log.append(('fire', None, n['id'], p))
+                                app.fire(node(n), priority=p)
+                        elif driver.quiescent(app):
+                            break
+                        app.tick()
+                        t += 1
+                        if t > 200:
+                            exhausted = True
+                            break
+                else:
+                    for n, p in waves[0]:
+                        log.append(('fire', None, n['id'], p))
+                        app.fire(node(n), priority=p)
+                    idle = driver.run_to_quiescence(app, max_iter=200)
+                    exhausted = idle.exhausted or idle.blocked > 0
+            except BaseException as e:  # noqa
+                escaped = repr(e)
+        return log, len(app._queue), exhausted, escaped, err.getvalue()
 
     # ------------------------------------------------------------------ oracle
     def execute(self, spec):
         waves = spec['waves'] if spec['driver'] == 'tick' else spec['waves'][:1]
         spec = dict(spec, waves=waves)
-        log, reent, fired_inside, left, exhausted, err = self._run_real(spec)
+        log, left, exhausted, escaped, err = self._run_real(spec)
         specs = {}
 
         def walk(s):
@@ -162,36 +187,46 @@ class C02(Prop):
         def bad(clause, msg):
             return Result(False, clause, '%s driver=%s' % (msg, spec['driver']))
 
+        if escaped:
+            return bad('exception-escaped', 'exception escaped the loop: %s' % escaped)
         if exhausted:
             return bad('no-quiescence', 'loop did not become quiescent')
+        stray = [l for l in log if l[0] == 'stray']
+        if stray:
+            return bad('stray-exception', 'unexpected exception event %r' % (stray[:2],))
         if err.strip():
             return bad('stderr', 'unexpected error output: %s' % err[-300:])
-        if reent:
-            return bad('reentrant', 'handler entered while another handler was running: %r' % reent[:5])
-        if fired_inside:
-            return bad('reentrant', 'fire() ran a handler before returning: %r' % fired_inside[:5])
         if left:
             return bad('queue-not-empty', 'queue not empty at quiescence')
 
+        # ---- (a) re-entrancy: a handler may only start while another is running if that one is inside flush()
+        stack = []   # [eid, hi, in_flush]
+        for l in log:
+            if l[0] == 'h':
+                if stack and not stack[-1][2]:
+                    return bad('reentrant', 'handler %r entered while handler %r was running (not inside flush())' % (l[1:], tuple(stack[-1][:2])))
+                stack.append([l[1], l[2], False])
+            elif l[0] == 'fb':
+                stack[-1][2] = True
+            elif l[0] == 'fe':
+                stack[-1][2] = False
+            elif l[0] == 'hend':
+                stack.pop()
+
+        # ---- (b) per event: handler priority order, each handler once, stop() cut-off
         pos = {}
-        ev_order = []
-        for i, (eid, hi) in enumerate(log):
-            if eid not in pos:
-                pos[eid] = []
-                ev_order.append(eid)
-            pos[eid].append((i, hi))
-        for eid, l in pos.items():
-            idx = [i for i, _ in l]
-            if idx != list(range(idx[0], idx[0] + len(idx))):
-                return bad('interleaved', 'handlers of event %d not contiguous' % eid)
+        for i, l in enumerate(log):
+            if l[0] == 'h':
+                pos.setdefault(l[1], []).append(l[2])
+        for eid, ran_list in pos.items():
             hs = specs[eid]['handlers']
-            pr = [hs[hi]['prio'] for _, hi in l]
+            pr = [hs[hi]['prio'] for hi in ran_list]
             if pr != sorted(pr, reverse=True):
                 return bad('handler-order', 'event %d handler priorities ran as %r' % (eid, pr))
-            if len({hi for _, hi in l}) != len(l):
+            if len(set(ran_list)) != len(ran_list):
                 return bad('handler-twice', 'event %d: a handler ran twice' % eid)
-            ran = {hi for _, hi in l}
-            stops = [hs[hi]['prio'] for _, hi in l if hs[hi]['stop']]
+            ran = set(ran_list)
+            stops = [hs[hi]['prio'] for hi in ran_list if hs[hi]['stop']]
             if stops:
                 sp = max(stops)
                 for hi, h in enumerate(hs):
@@ -199,57 +234,59 @@ class C02(Prop):
                         return bad('ran-after-stop', 'event %d handler %d (prio %r) ran after stop at prio %r' % (eid, hi, h['prio'], sp))
                     if h['prio'] > sp and hi not in ran:
                         return bad('handler-missing', 'event %d handler %d did not run' % (eid, hi))
-            else:
-                # no handler that ran stopped; but a stopper that did not run would itself be "missing"
-                if ran != set(range(len(hs))):
-                    return bad('handler-missing', 'event %d: handlers %r did not run' % (eid, sorted(set(range(len(hs))) - ran)))
+            elif ran != set(range(len(hs))):
+                return bad('handler-missing', 'event %d: handlers %r did not run' % (eid, sorted(set(range(len(hs))) - ran)))
 
-        # pass simulation using the children of the handlers that actually ran, in the order they ran
-        ran_by_event = {eid: [hi for _, hi in l] for eid, l in pos.items()}
+        # ---- (c) reference queue machine over the action log
+        queue = []      # (prio, seq, id)
+        batch = []
         seq = 0
-        queue = []
-        expect = []
+        started = set()
+        order = []
         passes = 0
         mixed_pass = False
         overtaker = False
-        t = 0
-        while True:
-            if t < len(waves):
-                for s, p in waves[t]:
-                    queue.append((p, seq, s['id']))
-                    seq += 1
-            elif not queue:
-                break
-            t += 1
-            if not queue:
-                continue
-            batch = sorted(queue)
-            queue = []
-            passes += 1
-            if len({p for p, _, _ in batch}) >= 2:
-                mixed_pass = True
-            for bi, (p, s, eid) in enumerate(batch):
-                expect.append(eid)
-                for hi in ran_by_event.get(eid, []):
-                    for kid, kp in specs[eid]['handlers'][hi]['kids']:
-                        queue.append((kp, seq, kid['id']))
-                        seq += 1
-                        if any(kp < p2 for p2, _, _ in batch[bi + 1:]):
-                            overtaker = True
-        if expect != ev_order:
-            k = 0
-            while k < min(len(expect), len(ev_order)) and expect[k] == ev_order[k]:
-                k += 1
-            if len(ev_order) < len(expect) and k == len(ev_order):
-                return bad('event-lost', 'events never dispatched: expected %r' % expect[k:k + 5])
-            if sorted(expect) != sorted(ev_order):
-                return bad('event-lost-or-dup', 'multiset of dispatched events differs at position %d: expected %r got %r' % (k, expect[k:k + 5], ev_order[k:k + 5]))
-            return bad('event-order', 'dispatch order differs at position %d: expected %r got %r' % (k, expect[k:k + 5], ev_order[k:k + 5]))
+        fired_ids = []
+        for l in log:
+            if l[0] == 'fire':
+                queue.append((l[3], seq, l[2]))
+                seq += 1
+                fired_ids.append(l[2])
+                if any(l[3] < p for p, _, _ in batch):
+                    overtaker = True
+            elif l[0] == 'h' and l[1] not in started:
+                eid = l[1]
+                started.add(eid)
+                order.append(eid)
+                if not batch:
+                    batch = sorted(queue)
+                    queue = []
+                    passes += 1
+                    if len({p for p, _, _ in batch}) >= 2:
+                        mixed_pass = True
+                if not batch:
+                    return bad('event-unknown', 'event %d dispatched but never fired' % eid)
+                if batch[0][2] != eid:
+                    exp = [b[2] for b in batch[:4]]
+                    if eid in [b[2] for b in batch]:
+                        return bad('event-order', 'event %d dispatched while the running pass expects %r first' % (eid, exp))
+                    return bad('event-overtakes-pass', 'event %d (fired during this pass) dispatched before the events that were already queued: %r' % (eid, exp))
+                batch.pop(0)
+        if len(order) != len(set(order)):
+            return bad('event-duplicated', 'an event was dispatched twice')
+        missing = [i for i in fired_ids if i not in started]
+        if missing or batch or queue:
+            return bad('event-lost', 'events fired but never dispatched: %r' % (missing[:6],))
 
         nontrivial = passes >= 2 and mixed_pass and overtaker
         classes = ['driver:' + spec['driver']]
-        if any(specs[e]['handlers'][hi]['stop'] for e, hi in log):
+        ranh = [(l[1], l[2]) for l in log if l[0] == 'h']
+        if any(specs[e]['handlers'][hi]['stop'] for e, hi in ranh):
             classes.append('stop-executed')
+        if any(specs[e]['handlers'][hi].get('flush') for e, hi in ranh):
+            classes.append('recursive-flush')
+        if any(specs[e]['handlers'][hi].get('raise') and specs[e]['handlers'][hi]['stop'] for e, hi in ranh):
+            classes.append('stop-then-raise')
         if len(waves) > 1 and any(waves[1:]):
             classes.append('outside-wave')
         if overtaker:
